@@ -16,7 +16,28 @@ ZV = {"EXECUTE": "ZExecute", "PERMIT": "ZPermit", "BLOCK": "ZBlock", "FAILURE": 
 YV = {"PERMIT": "YPermit", "BLOCK": "YBlock", "UNKNOWN": "YOther", "EXECUTE": "YOther", "FAILURE": "YOther"}
 ACTIONS = {"SUCCESS": 0, "BLOCKED": 1, "FAILURE": 2, "SKIPPED": 3, "ERROR": 4, "CIRCUIT_OPEN": 5}
 CIRC = {"closed": 0, "open": 1, "half_open": 2}
-OPC = {"tick": 0, "run": 1, "reset": 2, "clear": 3, "log": 4, "begin": 5, "end": 6}
+OPC = {"tick": 0, "run": 1, "reset": 2, "clear": 3, "log": 4, "begin": 5, "end": 6,
+       "set_timeout": 7, "set_threshold": 8, "odd": 9}
+# recovery timeouts on other scales ("manual reset only"): 1e12 s, timedelta.max to the day, a century, 1e9 s
+FAR = [10 ** 18, 86_399_999_913_600 * US, 3_155_760_000 * US, 10 ** 9 * US]
+YEAR = 366 * 86400 * US
+# prompts that cannot be hashed (["odd", kind, executor, assessor, duration]): a str with a lone surrogate (what
+# os.fsdecode gives for an undecodable file name, or a JSON string with half an emoji) cannot be encoded; a prompt
+# that is not a str has no .encode()
+ODD = {"surrogate": "report \udcff.txt", "half-emoji": "emoji cut \ud83d", "none": None, "bytes": b"raw \xff bytes",
+       "int": 12345, "tuple": ("list", "files")}
+ODD_RAISES = (UnicodeEncodeError, AttributeError, TypeError)
+# ordinary prompts of unusual shapes: reserved prompt ids of ["run", id, ...]
+SPECIAL_PROMPTS = {-7: "L" * 300_000 + " end", -8: "", -9: "caf\u00e9 \U0001F642 \x00 \u2028 \u0301"}
+
+
+def prompt_text(p):
+    return SPECIAL_PROMPTS.get(p, f"p{p}")
+
+
+def tref(timeout):
+    """The scale on which clock advances / durations / cache lifetimes are drawn for a loop with this timeout."""
+    return timeout if timeout <= YEAR else 60 * US
 PLACES = {"z": "InZ", "y": "InY"}
 ZCODE = {None: 0, "EXECUTE": 1, "PERMIT": 2, "BLOCK": 3, "FAILURE": 4}     # anything else: 5
 # what the caller's on_block / on_permit observer does if it is called during an operation
@@ -81,6 +102,8 @@ def script_of(op):
         return (op[2], op[3])
     if op[0] == "begin":
         return (op[3], op[4])
+    if op[0] == "odd":
+        return (op[2], op[3])
     return None
 
 
@@ -151,7 +174,19 @@ class C08(Check):
             "plus threshold failures followed by every sequence of length <= 3 for thresholds 3,4 (thorough) "
             "over the 9 symbols {success, intentional block, executor failure, agent exception, cache-hit attempt, advance "
             "below/at/above the timeout, manual reset}; and all 6 gate logics x 6 executor x 4 assessor behaviours run twice in CLOSED "
-            "and once as a probe (with console output and callbacks); a third of the enumerated histories run with console output, a quarter "
+            "and once as a probe (with console output and callbacks); "
+            "LIVE RECONFIGURATION: in a third of the generated histories loop.recovery_timeout / loop.failure_threshold are ASSIGNED ON THE LIVE "
+            "LOOP between the operations, in whatever state the breaker is (timeout := 0, 1us, half, double, 6x, +1us, 60s, the original, or a "
+            "FAR value: 1e12 s, timedelta.max to the day, a century, 1e9 s; threshold := 1..5, 0, current +/- 1), and 8% of the loops are BUILT "
+            "with a far ('manual reset only') timeout; clock advances are then drawn around the timeout in force; UNUSUAL PROMPTS: a sixth "
+            "of the generated histories contain requests whose prompt cannot be hashed (a str with a lone low / high surrogate, None, bytes, an "
+            "int, a tuple: run() of the unchanged code raises for them once it reaches the cache / the gate logic - observation 3 - but must "
+            "answer CIRCUIT_OPEN while open), 4% of the requests use a 300 000-character, an empty or a non-ASCII prompt; enumerated: every word of "
+            "length <= 3 over {S,F,C,-,=,R} (thorough: <= 3 over the 9 symbols, 4 over these 6) + {T: timeout x3, H: timeout 1e12 s, N/n: threshold +1/-1, O: "
+            "unhashable prompt} with one of the new symbols for threshold 2, the words of length <= 2 (thorough: <= 3, + t: timeout 0) behind a "
+            "tripped breaker with and without the cache, 8 scenarios x thresholds 1..3 on loops built with each far timeout and with 0 / 1us, "
+            "every unhashable kind x cache on/off x 4 agent behaviours in CLOSED / OPEN inside and after the timeout / as the probe; "
+            "the loop's failure_threshold and recovery_timeout are read back after every operation; a third of the enumerated histories run with console output, a quarter "
             "with callbacks, a fifth with the log accessor after every operation. Outcome classes are read off the agents' verdicts: success = result not blocked, executor failure = "
             "blocked with executor verdict FAILURE, agent exception, intentional block = any other blocked result. non-trivial = some request failed or the breaker left CLOSED; distinct by case content")
     LEVEL_TEXT = ("Coq theorems over all request histories (lists of run/advance/reset/clear-cache operations, no bound on length), all "
@@ -168,7 +203,14 @@ class C08(Check):
                   "histories with on_block / on_permit observers installed that RAISE in any of the operations in which they are called "
                   "(kop/kstep/krun): the loop state and every computed result are those of the history without observers "
                   "(c08_callbacks_never_move_the_breaker), run() raises only after the bookkeeping and only for a fresh gate result, and the "
-                  "threshold / blocks / probe / isolation theorems restated for these histories. The model is tied to the code by evaluating it in Coq on every generated "
+                  "threshold / blocks / probe / isolation theorems restated for these histories; and over all LIVE histories (lop/lstep/lrun: "
+                  "the configuration is threaded through the operations, SetTimeout / SetThreshold reassign recovery_timeout / failure_threshold "
+                  "to any value at any moment, Odd = a request whose prompt cannot be hashed, for which run() raises once admitted): every "
+                  "arriving request of ANY prompt is answered CIRCUIT_OPEN by a run() that returns while less than the timeout IN FORCE has "
+                  "elapsed since the last failure (c08_live_open_isolates_every_prompt), a probe is admitted once the timeout in force has "
+                  "elapsed, never open before the threshold is reached in total under any reassignment of the timeout, a CLOSED breaker trips "
+                  "exactly when the count reaches the threshold in force, unhashable prompts are never booked; histories without "
+                  "reconfiguration are the histories above (c08_live_static_is_krun). The model is tied to the code by evaluating it in Coq on every generated "
                   "history the implementation ran under a virtual clock with stub agents (exhaustive for short histories).")
     LEVEL_NOTE = ("Trusts: Coq kernel+VM; the correspondence harness; time modelled as integer microseconds, one clock reading per "
                   "run() before the agents and one after; agents as scripted stubs; the 1000-entry results log is not modelled (its accessor is "
@@ -201,11 +243,24 @@ class C08(Check):
                "trips does go on to its assessor (one call, one spend) and its answer is recorded - it must not close the breaker, clear the "
                "count or shorten the timeout. A probe is a request that arrives after the timeout / while half-open; what a straggler admitted "
                "while CLOSED does to a HALF_OPEN breaker is not demanded either way by the monitor",
+               "READING (live reconfiguration): 'the recovery timeout' / 'the failure threshold' of the property are the values of the loop's "
+               "public attributes in force when a request arrives / when a failure is recorded: an open breaker isolates while less than the "
+               "timeout NOW configured has elapsed since the last failure and admits a probe once it has; a CLOSED breaker must not open before "
+               "the threshold then in force has been reached by the failures since the last clear; a failed probe re-opens whatever the "
+               "threshold is",
+               "READING (prompts that cannot be hashed): 'answers every request blocked/CIRCUIT_OPEN while open' is demanded for every prompt. "
+               "When such a request is ADMITTED the unchanged code raises (UnicodeEncodeError / AttributeError from prompt.encode()); that "
+               "request is none of the property's outcome classes: the monitor demands nothing of it and lets it end a row of consecutive "
+               "failures; the model has it as the explicit reply LRaisedInRun and the correspondence check compares where it raises (before "
+               "the agents with the cache on, after them with the cache off)",
                "READING: outcome classes are by agent verdicts - success = result not blocked; executor failure = blocked result whose "
                "executor verdict is FAILURE (any assessor verdict, any gate logic); agent exception = either agent raises; intentional "
                "block = every other blocked result. Under OR an executor FAILURE with an assessor PERMIT is an unblocked SUCCESS and "
                "is recorded as a success"]
-    ASSUMPTIONS = ["failure_threshold, recovery_timeout, gate_logic, enable_circuit_breaker are not reassigned after construction",
+    ASSUMPTIONS = ["gate_logic, enable_circuit_breaker, enable_cache, cache_ttl are not reassigned after construction (failure_threshold and "
+                   "recovery_timeout may be, between two operations); c08_live_open_implies_threshold_reached (the 'in total' clause over whole "
+                   "histories) is stated for histories that reassign the timeout but not the threshold - with the threshold reassigned the "
+                   "clause is stated per operation (c08_live_trip_needs_threshold_in_force)",
                    "concurrent run() calls interleave only at the agents' express() calls (requests suspended there while others run); "
                    "arbitrary pre-emption between bytecodes of run() is not covered",
                    "on_block / on_permit callbacks may raise (anything) but do not call back into the loop (no run()/reset from inside an observer)"]
@@ -227,7 +282,9 @@ class C08(Check):
     def _rand_cfg(self, rng):
         thr = rng.choice([1, 1, 1, 2, 2, 2, 3, 3, 4, 4, 0, 5, -1, 2, 3])
         timeout = rng.choice([2 * US, 2 * US, 10 * US, 10 * US, US // 2, 60 * US, 1, 0])
-        ttl = rng.choice([300 * US, 300 * US, timeout, 3 * timeout, US, 0])
+        if rng.random() < 0.08:
+            timeout = rng.choice(FAR + [10 ** 18])
+        ttl = rng.choice([300 * US, 300 * US, tref(timeout), 3 * tref(timeout), US, 0])
         gate = rng.choice(["and"] * 7 + ["or", "or", "executor_priority", "executor_priority", "assessor_priority",
                                          "unanimous", "majority"])
         cfg = {"enabled": rng.random() < 0.85, "thr": thr, "timeout_us": timeout,
@@ -254,10 +311,14 @@ class C08(Check):
             z = rng.choice(list(ZV) + ["raise"])
             y = rng.choice(["PERMIT", "BLOCK", "UNKNOWN", "raise", "EXECUTE", "FAILURE"])
         prompt = rng.choice([0, 0, 1, 2]) if rng.random() < 0.7 else fresh
+        if rng.random() < 0.04:
+            prompt = rng.choice(list(SPECIAL_PROMPTS))
+        timeout = tref(timeout)
         dur = 0 if rng.random() < 0.8 else rng.choice([US, timeout, max(0, timeout - 1), 1])
         return ["run", prompt, z, y, dur]
 
     def _rand_tick(self, rng, timeout, ttl):
+        timeout = tref(timeout)
         d = rng.choice([timeout - 1, timeout, timeout + 1, timeout, timeout // 2, 2 * timeout, 1, 0, US,
                         ttl, ttl - 1, timeout - 2])
         r = rng.random()
@@ -283,8 +344,27 @@ class C08(Check):
             # while other operations (whole requests, further begins, clock advances, resets) are carried out, ended later
             overlap = rng.random() < 0.34
             flying = []
+            # LIVE RECONFIGURATION: in a third of the histories recovery_timeout / failure_threshold are assigned on the
+            # live loop (whatever state the breaker is in); a sixth have requests whose prompt cannot be hashed
+            live = rng.random() < 0.34
+            odd = rng.random() < 0.17
+            tmo_now, thr_now = cfg["timeout_us"], cfg["thr"]
             for k in range(nops):
                 r = rng.random()
+                if live and rng.random() < 0.16:
+                    if rng.random() < 0.6:
+                        t0 = tref(tmo_now)
+                        tmo_now = rng.choice([0, 1, t0 // 2, 2 * t0, 6 * t0, t0 + 1, 60 * US, cfg["timeout_us"], 10 * US,
+                                              rng.choice(FAR)])
+                        ops.append(["set_timeout", tmo_now])
+                    else:
+                        thr_now = rng.choice([1, 2, 3, 4, 5, 0, thr_now + 1, thr_now - 1, thr_now + 1])
+                        ops.append(["set_threshold", thr_now])
+                    continue
+                if odd and rng.random() < 0.2:
+                    run = self._rand_run(rng, (0.15, 0.1), tmo_now, 0)
+                    ops.append(["odd", rng.choice(list(ODD)), run[2], run[3], run[4]])
+                    continue
                 if overlap:
                     q = rng.random()
                     if flying and q < 0.22:
@@ -299,7 +379,7 @@ class C08(Check):
                         ops.append(["end", rng.choice([k, 0, 99])])
                         continue
                 if r < 0.28:
-                    ops.append(self._rand_tick(rng, cfg["timeout_us"], cfg["ttl_us"]))
+                    ops.append(self._rand_tick(rng, tmo_now, cfg["ttl_us"]))
                 elif r < 0.32:
                     ops.append(["reset"])
                 elif r < 0.34:
@@ -307,7 +387,7 @@ class C08(Check):
                 elif r < 0.40:
                     ops.append(["log", rng.choice([100, 1, 0, 3, 5000, -1])])
                 else:
-                    ops.append(self._rand_run(rng, profile, cfg["timeout_us"], 100 + k))
+                    ops.append(self._rand_run(rng, profile, tmo_now, 100 + k))
             if overlap:
                 # most requests still in flight are answered in the end (any order), then two more requests arrive
                 rng.shuffle(flying)
@@ -476,9 +556,25 @@ class C08(Check):
         return {"cfg": cfg, "ops": ops, "word": "long:random"}
 
     def _symbolic(self, thr, word, timeout=10 * US):
-        """A word over S B F X C (cache-hit attempt) - = + (advance below/at/above the timeout) R (reset)."""
+        """A word over S B F X C (cache-hit attempt) - = + (advance below/at/above the timeout the loop was BUILT with)
+        R (reset); live reconfiguration: T (recovery_timeout := 3 x the original), t (:= 0), H (:= 1e12 s, "manual reset
+        only"), N / n (failure_threshold := current + 1 / - 1); O: a request whose prompt cannot be hashed (the kind rotates
+        with the position; its agents would answer EXECUTE / PERMIT)."""
         ops, last_cached = [], None
+        cur_thr = thr
+        kinds = list(ODD)
         for k, ch in enumerate(word):
+            if ch == "T":
+                ops.append(["set_timeout", 3 * timeout])
+            elif ch == "t":
+                ops.append(["set_timeout", 0])
+            elif ch == "H":
+                ops.append(["set_timeout", 10 ** 18])
+            elif ch in "Nn":
+                cur_thr += 1 if ch == "N" else -1
+                ops.append(["set_threshold", cur_thr])
+            elif ch == "O":
+                ops.append(["odd", kinds[(k + len(word)) % len(kinds)], "EXECUTE", "PERMIT", 0])
             if ch in "SBFX":
                 z, y = OUTCOME[ch]
                 ops.append(["run", 10 + k, z, y, 0])
@@ -500,6 +596,52 @@ class C08(Check):
                 ops.append(["reset"])
         return {"cfg": {"enabled": True, "thr": thr, "timeout_us": timeout, "cache": True, "ttl_us": 3000 * US,
                         "gate": "and", "cost": 10}, "ops": ops, "word": word}
+
+    def _live_cases(self):
+        """Live reconfiguration and prompts that cannot be hashed, enumerated: every word of length <= 3 (thorough: <= 4)
+        for threshold 2 over the 9 symbols + T H N n O that has one of the new symbols, the same words of length <= 2
+        (thorough: <= 3) behind a tripped breaker (FF) and behind a breaker built with a far timeout; scenarios."""
+        new = "THNnO"
+        alphabet = ("SFC-=R" if self.tier == "quick" else "SBFXC-=+R") + new
+        top = 3 if self.tier == "quick" else 4
+        out = []
+        for n in range(1, top + 1):
+            # (thorough: length 4 over the reduced alphabet {S,F,C,-,=,R} + the new symbols)
+            for w in itertools.product(alphabet if n <= 3 else "SFC-=R" + new, repeat=n):
+                if any(ch in new for ch in w):
+                    out.append(self._symbolic(2, "".join(w)))
+        for n in range(1, top):
+            for w in itertools.product(alphabet + "t", repeat=n):
+                if any(ch in new + "t" for ch in w):
+                    out.append(self._symbolic(2, "FF" + "".join(w)))
+                    c = self._symbolic(1, "F" + "".join(w))
+                    c["cfg"]["cache"] = False          # without the cache the agents see the unhashable prompt
+                    c["word"] += "/nocache"
+                    out.append(c)
+        # loops BUILT with a timeout on another scale: threshold failures, then requests of every kind, a reset, again
+        for far in FAR + [0, 1]:
+            for thr in (1, 2, 3):
+                for tail in ("SSO", "OS=S", "RSFFF", "=S+S", "TS", "tS", "NFS", "XO"):
+                    c = self._symbolic(thr, "F" * thr + tail)
+                    c["cfg"]["timeout_us"] = far
+                    c["word"] = f"far{far}:" + c["word"]
+                    out.append(c)
+        # every kind of unhashable prompt: in CLOSED, refused while OPEN, as the probe, cache on / off, the agents raising
+        for kind in ODD:
+            for cache in (True, False):
+                for z, y in (("EXECUTE", "PERMIT"), ("raise", "PERMIT"), ("FAILURE", "raise"), ("FAILURE", "PERMIT")):
+                    O = ["odd", kind, z, y, 0]
+                    F = lambda p: ["run", p, "FAILURE", "PERMIT", 0]
+                    ops = [O, F(1), O, F(2), O, ["run", 3, "EXECUTE", "PERMIT", 0], ["tick", 10 * US - 1], O,
+                           ["tick", 1], O, ["run", 4, "EXECUTE", "PERMIT", 0], O]
+                    out.append({"cfg": {"enabled": True, "thr": 2, "timeout_us": 10 * US, "cache": cache, "ttl_us": 300 * US,
+                                        "gate": "and", "cost": 10}, "ops": ops, "word": f"odd:{kind}:{z}/{y}"})
+        for p in SPECIAL_PROMPTS:
+            R = lambda z="EXECUTE": ["run", p, z, "PERMIT", 0]
+            out.append({"cfg": {"enabled": True, "thr": 1, "timeout_us": 10 * US, "cache": True, "ttl_us": 300 * US,
+                                "gate": "and", "cost": 10},
+                        "ops": [R(), R(), ["clear"], R("FAILURE"), R(), ["tick", 10 * US], R(), R()], "word": f"prompt{p}"})
+        return out
 
     def exhaustive_cases(self):
         alphabet = "SBFXC-=+R"
@@ -557,6 +699,7 @@ class C08(Check):
         out += [self._raising(c, mode="base" if i % 7 == 3 else "raise") for i, c in enumerate(ov)
                 if self.tier != "quick" or i % 2 == 0]
         out += self._overlap_words()
+        out += self._live_cases()
         # a third of the enumerated histories with console output, a quarter with recording callbacks, some with the
         # results-log accessor between every two operations (all three must be invisible)
         for i, c in enumerate(out):
@@ -689,6 +832,9 @@ class C08(Check):
                 zc = lambda: zs.calls
                 yc = lambda: ys.calls
 
+            def tdus(d):
+                return (d.days * 86400 + d.seconds) * US + d.microseconds
+
             def snap():
                 st = loop.get_circuit_breaker_stats()
                 g = loop.get_statistics()
@@ -703,7 +849,8 @@ class C08(Check):
                         "errors": g["total_errors"], "z": zc(), "y": yc(), "spent": budget0 - store.atp,
                         "energy_ops": getattr(store, "_operations_count", 0),
                         "requests": g["total_requests"], "blocked": g["total_blocked"], "permitted": g["total_permitted"],
-                        "cache": g["cache_size"], "now": clock["us"], "cb_block": cb["block"], "cb_permit": cb["permit"]}
+                        "cache": g["cache_size"], "now": clock["us"], "cb_block": cb["block"], "cb_permit": cb["permit"],
+                        "cfg_thr": loop.failure_threshold, "cfg_tmo": tdus(loop.recovery_timeout)}
 
             def answer(r):
                 zo = r.executor_output.action_type if r.executor_output is not None else None
@@ -715,7 +862,7 @@ class C08(Check):
                 # (evt / gate) so that exactly one thread is running at any time
                 ctx.rq = rq
                 try:
-                    rq["res"] = loop.run(f"p{rq['prompt']}")
+                    rq["res"] = loop.run(prompt_text(rq['prompt']))
                 except Abandon:
                     pass
                 except BaseException as e:  # noqa - run() raises only what the caller's observer raised
@@ -751,6 +898,17 @@ class C08(Check):
                             loop.reset_circuit_breaker()
                         elif op[0] == "clear":
                             loop.clear_cache()
+                        elif op[0] == "set_timeout":
+                            loop.recovery_timeout = timedelta(microseconds=op[1])     # the operator, on the live loop
+                        elif op[0] == "set_threshold":
+                            loop.failure_threshold = op[1]
+                        elif op[0] == "odd":
+                            # ["odd", kind, executor, assessor, duration]: a request whose prompt cannot be hashed
+                            ctx.rq = {"z": op[2], "y": op[3], "dur": op[4]}
+                            try:
+                                res = answer(loop.run(ODD[op[1]]))
+                            except ODD_RAISES as e:
+                                extra["run_raised"] = type(e).__name__
                         elif op[0] == "begin":
                             # ["begin", id, prompt, executor, assessor, duration, agent it is suspended in]
                             if real_agents or op[1] in flying:
@@ -784,7 +942,7 @@ class C08(Check):
                                 r = loop.run(op[1])
                             else:
                                 ctx.rq = {"z": op[2], "y": op[3], "dur": op[4]}
-                                r = loop.run(f"p{op[1]}")
+                                r = loop.run(prompt_text(op[1]))
                             res = answer(r)
                 except common.Hang:
                     raise
@@ -813,6 +971,8 @@ class C08(Check):
                     # run() raised the observer's exception: what the observer had been handed
                     c = cur["cbres"]
                     row += [2, int(c["success"]), int(c["blocked"]), c["action"], int(c["cached"]), ZCODE.get(c["zout"], 5)]
+                elif extra.get("run_raised"):
+                    row += [3, 0, 0, 0, 0, 0]        # run() raised an exception of its own on the unhashable prompt
                 elif res is None:
                     row += [0, 0, 0, 0, 0, 0]
                 else:
@@ -823,7 +983,7 @@ class C08(Check):
                         int(after["ls"] is not None), after["ls"] or 0,
                         after["trips"], after["errors"], after["z"], after["y"], after["spent"],
                         after["requests"], after["blocked"], after["permitted"], after["cache"], after["now"],
-                        after["cb_block"], after["cb_permit"]]
+                        after["cb_block"], after["cb_permit"], after["cfg_thr"], after["cfg_tmo"]]
                 obs.append(row)
                 trace.append(step)
                 if exc is not None:
@@ -851,6 +1011,15 @@ class C08(Check):
                 zb = "Raises" if z == "raise" else f"(Returns {ZV[z]})"
                 yb = "Raises" if y == "raise" else f"(Returns {YV[y]})"
                 return f"(mkReq {cz(prompt)} {zb} {yb} {cz(dur)})"
+            if op[0] == "set_timeout":
+                ops.append(f"(SetTimeout {cz(op[1])})")
+                continue
+            if op[0] == "set_threshold":
+                ops.append(f"(SetThreshold {cz(op[1])})")
+                continue
+            if op[0] == "odd":
+                ops.append(f"(Odd {req(0, op[2], op[3], op[4])})")
+                continue
             if op[0] == "tick":
                 o = f"Seq (Tick {cz(op[1])})"
             elif op[0] == "reset":
@@ -863,7 +1032,7 @@ class C08(Check):
                 o = f"End {cz(op[1])}"
             else:
                 o = f"Seq (Run {req(op[1], op[2], op[3], op[4])})"
-            ops.append(f"({o}, {CBS[cb_of(op)]})")
+            ops.append(f"(K ({o}, {CBS[cb_of(op)]}))")
         hb, hp = hooks_of(c)
         return ctuple(cfg, f"(mkHooks {cbool(hb)} {cbool(hp)})", clist(ops))
 
@@ -888,14 +1057,30 @@ class C08(Check):
                 where += f" (on_{'block' if res['blocked'] else 'permit'} raised; it had been handed {res})"
             elif st.get("cb_swallowed"):
                 where += f" (the observer raised after it had been handed {st['cbres']}; run() returned {st['res']})"
+            if op[0] == "set_timeout":
+                tmo = op[1]          # "the recovery timeout" is the one in force when a request arrives
+            elif op[0] == "set_threshold":
+                thr = op[1]          # "the failure threshold" is the one in force when a failure is recorded
             if st["exc"]:
+                # run() raised on an ordinary request.  What the property says about the request is checked first
+                if op[0] in ("run", "begin", "end") and enabled:
+                    elapsed = None if last_fail is None else b["now"] - last_fail
+                    if op[0] != "end" and b["state"] == 1 and (elapsed is None or elapsed < tmo):
+                        return Violation("C08/open-not-isolated", f"{where}: open with {elapsed}us < {tmo}us since the last failure, "
+                                         f"but run() raised {st['exc']} instead of answering blocked/CIRCUIT_OPEN")
+                    sc = st.get("script")
+                    if sc is not None and a["z"] > b["z"] and (sc[0] in ("raise", "FAILURE") or sc[1] == "raise") \
+                            and consecutive + 1 >= max(thr, 1) and a["state"] != 1:
+                        return Violation("C08/not-open-after-threshold-failures",
+                                         f"{where}: {consecutive + 1} consecutive failed requests (the last one made run() raise {st['exc']}), "
+                                         f"threshold {thr}, recovery timeout {tmo}us, state {a['state']} failure_count {a['fc']}")
                 return Violation("C08/raises", f"{where}: {st['exc']} escaped")
             if op[0] == "reset":
                 fails_since_clear, consecutive = 0, 0
                 if a["state"] != 0 or a["fc"] != 0:
                     return Violation("C08/reset-does-not-close", f"{where}: after manual reset state={a['state']} failure_count={a['fc']}")
                 continue
-            if op[0] not in ("run", "begin", "end") or st.get("unknown"):
+            if op[0] not in ("run", "begin", "end", "odd") or st.get("unknown"):
                 if (a["state"], a["fc"], a["lf"], a["trips"]) != (b["state"], b["fc"], b["lf"], b["trips"]):
                     return Violation("C08/breaker-moved-without-request", f"{where}: {b} -> {a}")
                 continue
@@ -906,7 +1091,7 @@ class C08(Check):
             cached = res is not None and res["cached"]
             if not enabled:
                 # with the breaker disabled agents are always consulted
-                if arrival and (refused or not (cached or consulted)):
+                if arrival and (refused or not (cached or consulted or st.get("run_raised"))):
                     return Violation("C08/disabled-refuses", f"{where}: breaker disabled but the request was answered {res} without consulting the agents")
                 continue
             if arrival:
@@ -917,15 +1102,22 @@ class C08(Check):
                              and a["energy_ops"] == b["energy_ops"])
                     same = (a["state"], a["fc"], a["lf"], a["trips"], a["sc"]) == (b["state"], b["fc"], b["lf"], b["trips"], b["sc"])
                     if not (refused and res["blocked"] and not res["success"] and quiet and same):
+                        ans = ('(admitted, now inside an agent)' if suspended else
+                               f"run() raised {st['run_raised']} on the prompt {ODD[op[1]]!a}" if st.get("run_raised") else res)
                         return Violation("C08/open-not-isolated", f"{where}: open with {elapsed}us < {tmo}us since the last failure, "
-                                         f"but answer={'(admitted, now inside an agent)' if suspended else res} agent calls {b['z']},{b['y']}->{a['z']},{a['y']} spent {b['spent']}->{a['spent']} "
+                                         f"but answer={ans} agent calls {b['z']},{b['y']}->{a['z']},{a['y']} spent {b['spent']}->{a['spent']} "
                                          f"breaker {b['state']},{b['fc']}->{a['state']},{a['fc']}")
                     continue
                 # every other state admits the request
                 if refused:
                     sig = "C08/probe-not-admitted" if b["state"] == 1 else "C08/refused-while-not-open"
                     return Violation(sig, f"{where}: state {b['state']}, {elapsed}us since the last failure (timeout {tmo}us) but the request was refused")
-                if not (cached or consulted):
+                if st.get("run_raised"):
+                    # admitted, and run() raised on the prompt that cannot be hashed (before or after the agents): none of
+                    # the property's outcome classes - nothing is demanded of it, and it ends a row of failures
+                    # (the threshold clauses at the end of the step still apply)
+                    consecutive = 0
+                elif not (cached or consulted):
                     return Violation("C08/admitted-without-agents", f"{where}: admitted, not a cache hit, yet the executor was not consulted")
                 probe = b["state"] in (1, 2)              # admitted after the timeout / while half-open
                 gate_state = 2 if probe else b["state"]   # the state in which its answer is recorded
@@ -941,7 +1133,7 @@ class C08(Check):
                     return Violation("C08/open-left-without-probe", f"{where}: the breaker was open, {elapsed}us < {tmo}us since the last failure, "
                                      f"and the answer {res} of a request admitted earlier moved it to state {a['state']} "
                                      f"(failure_count {b['fc']}->{a['fc']})")
-            if not suspended:
+            if not suspended and not st.get("run_raised"):
                 oc = outcome(st["script"], res)
                 if oc in ("exception", "executor_failure"):
                     fails_since_clear += 1
@@ -967,9 +1159,11 @@ class C08(Check):
                             return Violation(sig, f"{where}: answer {res} changed the breaker: failure_count {b['fc']}->{a['fc']} "
                                              f"state {b['state']}->{a['state']} trips {b['trips']}->{a['trips']}")
             # never open before the threshold has been reached since the last clear
-            if a["state"] in (1, 2) and fails_since_clear < thr:
+            # (a breaker that is CLOSED opens only when the threshold in force at that moment has been reached; a failed
+            # probe re-opens whatever the threshold is by then)
+            if b["state"] == 0 and a["state"] in (1, 2) and fails_since_clear < thr:
                 return Violation("C08/open-before-threshold", f"{where}: state {a['state']} after only {fails_since_clear} failure(s) since the last clear, threshold {thr}")
-            if a["trips"] > b["trips"] and (fails_since_clear < thr or a["state"] != 1):
+            if a["trips"] > b["trips"] and ((b["state"] == 0 and fails_since_clear < thr) or a["state"] != 1):
                 return Violation("C08/open-before-threshold", f"{where}: tripped after {fails_since_clear} failure(s), threshold {thr}, state {a['state']}")
             # open at the latest after threshold consecutive failures
             if not suspended and consecutive >= max(thr, 1) and a["state"] != 1:
@@ -1015,7 +1209,11 @@ class C08(Check):
 
     def classify(self, case, obs, trace):
         c = case["cfg"]
-        ks = [f"thr={c['thr']}", "enabled" if c["enabled"] else "disabled", f"gate={c['gate']}",
+        if c["timeout_us"] > YEAR:
+            ks_far = ["built-with-far-timeout"]
+        else:
+            ks_far = []
+        ks = ks_far + [f"thr={c['thr']}", "enabled" if c["enabled"] else "disabled", f"gate={c['gate']}",
               "cache" if c["cache"] else "nocache", f"ops={min(len(case['ops']), 15)}",
               "silent" if c.get("silent", True) else "verbose", "callbacks" if c.get("callbacks") else "no-callbacks"]
         if c.get("op_timeout") is not None:
@@ -1031,6 +1229,19 @@ class C08(Check):
                                  ("\u26a0", "other")):
                     if key in s["printed"]:
                         ks.append("printed=" + tag)
+            stn = {0: "closed", 1: "open", 2: "half_open"}.get(b["state"], str(b["state"]))
+            if op[0] == "odd":
+                ks += [f"unhashable-prompt/{op[1]}", f"unhashable-prompt/while-{stn}/" +
+                       (f"run-raised-{'after' if a['z'] > b['z'] else 'before'}-the-agents" if s.get("run_raised") else
+                        "refused" if res["action"] == 5 else "answered")]
+            if op[0] == "set_timeout":
+                ks.append(f"live/recovery_timeout-{'lengthened' if op[1] > b['cfg_tmo'] else 'shortened' if op[1] < b['cfg_tmo'] else 'same'}-while-{stn}")
+                if op[1] in FAR:
+                    ks.append("live/recovery_timeout-far")
+            if op[0] == "set_threshold":
+                ks.append(f"live/failure_threshold-{'raised' if op[1] > b['cfg_thr'] else 'lowered' if op[1] < b['cfg_thr'] else 'same'}-while-{stn}")
+            if op[0] == "run" and op[1] in SPECIAL_PROMPTS:
+                ks.append(f"prompt/{ {-7: 'very-long', -8: 'empty', -9: 'non-ascii'}[op[1]] }")
             if op[0] not in ("run", "begin", "end"):
                 ks.append("op=" + op[0])
                 if s.get("loglen") is not None and s["loglen"] >= self.CAP:
